@@ -259,7 +259,11 @@ fn parse_template(path: &Path, nodes: &mut Vec<Node>) {
                         "letrecv" => {
                             let mut it = rest.split_whitespace();
                             let m = it.next().unwrap_or_else(|| die(&format!("{sctx}: @@letrecv method name"))).to_string();
-                            let n = it.next().unwrap_or_else(|| die(&format!("{sctx}: @@letrecv method name"))).to_string();
+                            let mut n = it.next().unwrap_or_else(|| die(&format!("{sctx}: @@letrecv method name"))).to_string();
+                            // optional third word: the single argument is let-bound too (`name argname`)
+                            if let Some(a) = it.next() {
+                                n = format!("{n} {a}");
+                            }
                             let t = multiline(&mut i);
                             d.letrecvs.push((m, n, t));
                         }
@@ -773,9 +777,23 @@ impl<'a, 'ast> Visit<'ast> for Ed<'a> {
                 let es = e.span().byte_range();
                 let rr = e.receiver.span().byte_range();
                 let ms = e.method.span().byte_range().start;
-                self.push(es.start, es.start, format!("{{ let {name} = "), "E19-receiver-let-bound", false);
-                self.push(rr.end, ms, format!(";\n{}\n        {name}.", text.trim_end()), "E19-receiver-let-bound", true);
-                self.push(es.end, es.end, " }", "E19-receiver-let-bound", false);
+                let (rname, aname) = match name.split_once(' ') {
+                    Some((r, a)) => (r.to_string(), Some(a.to_string())),
+                    None => (name.clone(), None),
+                };
+                self.push(es.start, es.start, format!("{{ let {rname} = "), "E19-receiver-let-bound", false);
+                match (&aname, e.args.len()) {
+                    (Some(an), 1) => {
+                        // `{ let r = recv; let a = arg; <text> r.m(a) }`: receiver, then argument, as before
+                        let ar = e.args[0].span().byte_range();
+                        self.push(rr.end, ar.start, format!(";\n        let {an} = "), "E19-receiver-let-bound", true);
+                        self.push(ar.end, es.end, format!(";\n{}\n        {rname}.{m}({an}) }}", text.trim_end()), "E19-receiver-let-bound", true);
+                    }
+                    _ => {
+                        self.push(rr.end, ms, format!(";\n{}\n        {rname}.", text.trim_end()), "E19-receiver-let-bound", true);
+                        self.push(es.end, es.end, " }", "E19-receiver-let-bound", false);
+                    }
+                }
                 self.visit_expr(&e.receiver);
                 for a in &e.args {
                     self.visit_expr(a);
